@@ -77,6 +77,13 @@ def run(ctx: core.Ctx) -> int:
     cls = core.need(core.find_class(mod, CLS), f"python.{CLS}")
     tr = core.need(core.find_func(cls, "transform"), f"{CLS}.transform")
     ctx.functions += [f"python.{CLS}.transform", f"python.{CLS}.mahalanobis", f"python.{CLS}.score"]
+    # compare what transform does, not how it is arranged: private helpers inlined, temporaries / module constants substituted,
+    # guard clauses and redefinitions normalised (fv.normast)
+    from .. import normast
+    nz = normast.Normaliser(normast.class_resolver(mod, cls, module_funcs=False), consts=normast.module_constants(mod))
+    tr = nz.function(tr)
+    for h in nz.inlined:
+        ctx.functions.append(f"python.{CLS}.{h} (inlined into transform)")
     q = f"{CLS}.transform"
     where = f"{F}:{q}"
     # model_ is the compiled filter of the adapter's own parameters
@@ -98,6 +105,18 @@ def run(ctx: core.Ctx) -> int:
     al = normstmt.Aliases(tr, items)
     T = al.text
     C = "self.model_.control_size"
+
+    def TT(text):
+        """a pattern written with local names, pushed through the same substitution as the code it is compared with"""
+        try:
+            return T(ast.parse(text, mode="eval").body)
+        except SyntaxError:
+            return text.replace(" ", "")
+
+    top_index = {id(st): n for n, st in enumerate(tr.body)}
+
+    def pos_of(st):
+        return top_index.get(id(st), -1)
 
     def calls_in(it_, suffix):
         return [c for c in ast.walk(it_.value) if isinstance(c, ast.Call) and ast.unparse(c.func).endswith(suffix)] if it_.value is not None else []
@@ -124,7 +143,9 @@ def run(ctx: core.Ctx) -> int:
     in_sens = [i for i in items if i.loops == (row, sens)]
     # ---- CONSUME: control prefix and remainder
     ctl_var = next((ast.unparse(i.target) for i in in_row if i.kind == "assign" and T(i.value) == f"X[{ridx},:{C}]"), None)
-    rest_var = next((ast.unparse(i.target) for i in in_row if i.kind == "assign" and T(i.value) == f"X[{ridx},{C}:]"), None)
+    rest_cands = [ast.unparse(i.target) for i in in_row if i.kind == "assign" and T(i.value) == f"X[{ridx},{C}:]"]
+    threaded = {ast.unparse(i.target) for i in in_sens if i.kind == "assign"}
+    rest_var = next((c for c in rest_cands if c in threaded), rest_cands[0] if rest_cands else None)    # the copy that the sensor loop consumes
     slices = [T(i.value) for i in in_row if i.kind == "assign" and isinstance(i.value, ast.Subscript) and T(i.value).startswith("X[")]
     if ctl_var is None or rest_var is None:
         if slices:
@@ -158,7 +179,7 @@ def run(ctx: core.Ctx) -> int:
             cands = [T(carg)]
             if isinstance(carg, ast.Name):
                 cands += [T(x.value) for x in in_row if x.kind == "assign" and ast.unparse(x.target) == carg.id]
-            want = {f"self.model_.Control.from_data({ctl_var}.reshape(({C},1)))", f"self.model_.Control.from_data(X[{ridx},:{C}].reshape(({C},1)))"}
+            want = {TT(f"self.model_.Control.from_data({ctl_var}.reshape(({C},1)))"), f"self.model_.Control.from_data(X[{ridx},:{C}].reshape(({C},1)))"}
             ctl_ok = any(c in want for c in cands)
         ctx.oblige("SEQUENCE", where, "controls -> Control.from_data(column of control_size)", ctl_ok, file=F, func=q, construct="control reading",
                    msg="the control passed to process_model is not Control.from_data of the row's control columns")
@@ -180,6 +201,11 @@ def run(ctx: core.Ctx) -> int:
         key = sens.target.id
     itx = T(it)
     SM = "self.model_.sensor_models"
+    if isinstance(it, ast.Name):
+        # a hoisted key list: one definition, a top-level statement after the filter is compiled and before the row loop
+        defs = [i for i in items if i.kind == "assign" and isinstance(i.target, ast.Name) and i.target.id == it.id]
+        if len(defs) == 1 and not defs[0].loops and not defs[0].guards and mdl and pos_of(defs[0].stmt) > pos_of(mdl[0]) and pos_of(defs[0].stmt) < pos_of(row):
+            itx = T(defs[0].value)
     ok_sorted = itx in (f"sorted(list({SM}))", f"sorted({SM})", f"sorted({SM}.keys())", f"sorted(list({SM}.keys()))")
     if not ok_sorted and key is None:
         ctx.error(f"{where}: per-sensor loop target not understood")
@@ -219,7 +245,7 @@ def run(ctx: core.Ctx) -> int:
     if len(mk) == 1 and rd_var is not None:
         i, c = mk[0]
         rname = ast.unparse(i.target) if i.target is not None else None
-        want = {f"self.model_.make_reading({key},data={rd_var}.reshape(({n},1)))" for n in n_txt}
+        want = {TT(f"self.model_.make_reading({key},data={rd_var}.reshape(({n},1)))") for n in n_txt}
         okr = T(c) in want
     ctx.oblige("SEQUENCE", where, "reading = make_reading(key, data=column of the sensor's size)", okr, file=F, func=q, construct="make_reading",
                msg="the reading passed to sensor_model is not make_reading(key, data=<this sensor's columns>)")
@@ -240,7 +266,12 @@ def run(ctx: core.Ctx) -> int:
     okn, why = False, "no NIS value appended per sensor"
     if apps and apps[0][1].args:
         atoms = {f"self.model_.innovations[{key}]": ("y", False), f"self.model_.sensor_prediction_uncertainty[{key}]": ("S", True)}
-        form = mat(al.subst(apps[0][1].args[0]), {}, atoms)
+        tmp_env = {}
+        for i_ in in_sens:
+            if i_.kind == "assign" and isinstance(i_.target, ast.Name):
+                tmp_env.setdefault(i_.target.id, []).append(al.subst(i_.value))
+        tmp_env = {k: v[0] for k, v in tmp_env.items() if len(v) == 1}
+        form = mat(al.subst(apps[0][1].args[0]), tmp_env, atoms)
         want = MatForm.atom("y").T() * MatForm.atom("S", True).inv() * MatForm.atom("y")
         okn = form is not None and form == want
         why = f"appended value normalises to {form!r}; required {want!r} (records of the same sensor key)"
@@ -274,7 +305,7 @@ def run(ctx: core.Ctx) -> int:
     guard = any(isinstance(s, ast.If) and "innovations < 0" in ast.unparse(s.test) and any(isinstance(b, ast.Raise) for b in ast.walk(s)) for s in mh.body)
     ctx.oblige("OUTPUTS", f"{F}:{CLS}.mahalanobis", "returns transform's values flattened; negatives raise", okm and guard, file=F, func=f"{CLS}.mahalanobis",
                construct="mahalanobis", msg="mahalanobis does not return the flattened transform output guarded against negative values")
-    score_rule(ctx, cls)
+    score_rule(ctx, cls, mod)
     for name in ("transform", "mahalanobis", "score"):
         fn = core.find_func(cls, name)
         ws = [w for w in effects.writes(fn) if not (w.kind == "attr" and w.target == "self.model_")]
@@ -285,36 +316,118 @@ def run(ctx: core.Ctx) -> int:
                                         "NIS and score, effect analysis", **META)
 
 
-def score_rule(ctx, cls):
+def _scalar(e, names, env=None, depth=0):
+    """arithmetic expression -> commutative polynomial (matform.Scalar); a name with one arithmetic definition is unfolded, other names are atoms"""
+    from fractions import Fraction
+    from ..matform import Scalar
+    if isinstance(e, ast.Name) and env is not None and len(env.get(e.id, [])) == 1 and depth < 6:
+        d = env[e.id][0]
+        if isinstance(d, (ast.BinOp, ast.UnaryOp, ast.Constant, ast.Name)):
+            v = _scalar(d, names, env, depth + 1)
+            if v is not None:
+                return v
+    if isinstance(e, ast.Constant) and isinstance(e.value, (int, float)) and not isinstance(e.value, bool):
+        return Scalar.const(Fraction(str(e.value)))
+    if isinstance(e, ast.UnaryOp) and isinstance(e.op, ast.USub):
+        v = _scalar(e.operand, names, env, depth)
+        return -v if v is not None else None
+    if isinstance(e, ast.BinOp) and isinstance(e.op, (ast.Add, ast.Sub, ast.Mult)):
+        a, b = _scalar(e.left, names, env, depth), _scalar(e.right, names, env, depth)
+        if a is None or b is None:
+            return None
+        return a + b if isinstance(e.op, ast.Add) else (a - b if isinstance(e.op, ast.Sub) else a * b)
+    if isinstance(e, ast.BinOp) and isinstance(e.op, ast.Div):
+        a, b = _scalar(e.left, names, env, depth), _scalar(e.right, names, env, depth)
+        if a is None or b is None:
+            return None
+        if len(b.t) == 1:
+            (mono, c), = b.t.items()
+            inv = Scalar({tuple((x, -k) for x, k in mono): Fraction(1) / c})
+            return a * inv
+        return None
+    if isinstance(e, ast.Name):
+        names.add(e.id)
+        return Scalar.atom(e.id)
+    return None
+
+
+def score_rule(ctx, cls, mod=None):
+    """SCORE: the returned value normalises (commutative polynomial normal form, fv.matform.Scalar) to
+    10*B + 1*((1/V + V)/2) + 0.01*M, and B, V, M -- whatever they are called -- are defined by the documented sub-terms"""
+    from fractions import Fraction
+    from .. import normast
+    from ..matform import Scalar
     sc = core.need(core.find_func(cls, "score"), f"{CLS}.score")
     q = f"{CLS}.score"
+    where = f"{F}:{q}"
+    consts = normast.module_constants(mod) if mod is not None else {}
+    sc = normast.Normaliser(None, consts=consts).function(sc)
     env = {}
-    for s in ast.walk(sc):
-        if isinstance(s, ast.Assign) and isinstance(s.targets[0], ast.Name):
-            env.setdefault(s.targets[0].id, []).append(s.value)
-    res = env.get("result", [None])[-1]
-    ok, why = False, "no `result = ...` found"
-    if res is not None:
-        txt = ast.unparse(res).replace(" ", "")
-        ok = txt == "bias_weight*bias_score+variance_weight*variance_score+matrix_weight*matrix_score"
-        why = f"result = {ast.unparse(res)}"
-    ctx.oblige("SCORE", f"{F}:{q}", "result = b_w*bias + v_w*variance + m_w*size", ok, file=F, func=q, construct="score combination", msg=why)
-    want = {"bias_score": {"avg"}, "variance_score": {"(1.0/var+var)/2.0", "(1/var+var)/2", "(var+1.0/var)/2.0"},
-            "bias_weight": {"10.0"}, "variance_weight": {"1.0"}, "matrix_weight": {"0.01"}}
-    for k, accepted in want.items():
-        vals = {ast.unparse(v).replace(" ", "") for v in env.get(k, [])}
-        ctx.oblige("SCORE", f"{F}:{q}", f"{k} = {sorted(vals)}", bool(vals) and vals <= accepted, file=F, func=q, construct=f"score term {k}",
-                   msg=f"{k} is defined as {sorted(vals)}; documented: {sorted(accepted)}")
-    avg = {ast.unparse(v).replace(" ", "") for v in env.get("avg", [])}
-    var = {ast.unparse(v).replace(" ", "") for v in env.get("var", [])}
-    oka = avg == {"np.sum(np.square(np.mean(normalized_innovations)))", "np.sum(np.square(np.mean(normalized_innovations*sample_weight)))"}
-    okv = var == {"np.sum(mahalanobis_distance_squared)", "np.sum(mahalanobis_distance_squared*sample_weight)"}
-    ctx.oblige("SCORE", f"{F}:{q}", f"avg = {sorted(avg)}", oka, file=F, func=q, construct="score avg", msg=f"bias sub-term is {sorted(avg)}")
-    ctx.oblige("SCORE", f"{F}:{q}", f"var = {sorted(var)}", okv, file=F, func=q, construct="score var", msg=f"variance sub-term is {sorted(var)}")
-    ms = {ast.unparse(v).replace(" ", "") for v in env.get("matrix_score", [])}
-    okms = any("np.sum(np.square(list(self._flatten_dict_diagonal(self.process_noise" in m for m in ms)
-    ctx.oblige("SCORE", f"{F}:{q}", "matrix_score = sum of squared noise diagonals", okms, file=F, func=q, construct="score size term",
-               msg=f"size sub-term is {sorted(ms)}")
-    src = {ast.unparse(v).replace(" ", "") for v in env.get("mahalanobis_distance_squared", [])}
-    ctx.oblige("SCORE", f"{F}:{q}", "scored values are mahalanobis(X)", src == {"self.mahalanobis(X)"}, file=F, func=q, construct="score source",
-               msg=f"score is computed from {sorted(src)}, not from self.mahalanobis(X)")
+    for s_ in ast.walk(sc):
+        if isinstance(s_, ast.Assign) and len(s_.targets) == 1 and isinstance(s_.targets[0], ast.Name):
+            env.setdefault(s_.targets[0].id, []).append(s_.value)
+        if isinstance(s_, ast.AugAssign) and isinstance(s_.target, ast.Name):
+            env.setdefault(s_.target.id, []).append(ast.BinOp(ast.Name(s_.target.id, ast.Load()), s_.op, s_.value))
+    rets = [r.value for r in ast.walk(sc) if isinstance(r, ast.Return) and r.value is not None]
+    plain = [r for r in rets if not isinstance(r, ast.Tuple)]
+    tup = [r for r in rets if isinstance(r, ast.Tuple)]
+    if not plain:
+        ctx.error(f"{where}: no plain (non-explain) return found")
+        return
+
+    def resolve(e, depth=0):
+        while isinstance(e, ast.Name) and len(env.get(e.id, [])) == 1 and depth < 6:
+            e, depth = env[e.id][0], depth + 1
+        return e
+    res = resolve(plain[0])
+    names = set()
+    form = _scalar(res, names, env)
+    if form is None:
+        ctx.error(f"{where}: the returned expression `{ast.unparse(res)[:100]}` is not arithmetic over named sub-terms")
+        return
+    # identify B, V, M by their role in the polynomial
+    B = V = M = None
+    for m, c in form.t.items():
+        if len(m) == 1 and m[0][1] == 1 and c == Fraction(10):
+            B = m[0][0]
+        elif len(m) == 1 and m[0][1] == 1 and c == Fraction(1, 100):
+            M = m[0][0]
+        elif len(m) == 1 and m[0][1] == -1:
+            V = m[0][0]
+    want = None
+    if B and V and M:
+        want = Scalar.const(10) * Scalar.atom(B) + (Scalar({((V, -1),): Fraction(1)}) + Scalar.atom(V)) * Scalar.const(Fraction(1, 2)) \
+            + Scalar.const(Fraction(1, 100)) * Scalar.atom(M)
+    ok = want is not None and form == want
+    ctx.oblige("SCORE", where, f"result = {form!r}", ok, file=F, func=q, construct="score combination",
+               msg=f"score returns {form!r}; documented: 10*bias + ((1/variance + variance)/2) + 0.01*size")
+    if tup:
+        # the explained tuple reports the same result first
+        first = resolve(tup[0].elts[0]) if tup[0].elts else None
+        okt = first is not None and _scalar(first, set(), env) == form
+        ctx.oblige("SCORE", where, "explain_score returns the same result first", okt, file=F, func=q, construct="score explain",
+                   msg="with explain_score the first returned element is not the score itself")
+    if not ok:
+        return
+
+    def defs(nm):
+        return {ast.unparse(v).replace(" ", "") for v in env.get(nm, [])}
+    # which names hold the source values: mahalanobis(X) and its square root
+    src = [k for k, vs in env.items() if any(ast.unparse(v).replace(" ", "") == "self.mahalanobis(X)" for v in vs)]
+    ctx.oblige("SCORE", where, f"scored values are mahalanobis(X) ({src})", len(src) == 1 and len(env[src[0]]) == 1, file=F, func=q, construct="score source",
+               msg=f"score is not computed from a single evaluation of self.mahalanobis(X) (found {src})")
+    if len(src) != 1:
+        return
+    d2 = src[0]
+    roots = {f"np.sqrt({d2})"}
+    rname = [k for k, vs in env.items() if len(vs) == 1 and ast.unparse(vs[0]).replace(" ", "") in roots]
+    r_ = rname[0] if rname else f"np.sqrt({d2})"
+    oka = defs(B) == {f"np.sum(np.square(np.mean({r_})))", f"np.sum(np.square(np.mean({r_}*sample_weight)))"}
+    okv = defs(V) == {f"np.sum({d2})", f"np.sum({d2}*sample_weight)"}
+    ctx.oblige("SCORE", where, f"bias term {B} = {sorted(defs(B))}", oka, file=F, func=q, construct="score avg", msg=f"bias sub-term is {sorted(defs(B))}")
+    ctx.oblige("SCORE", where, f"variance term {V} = {sorted(defs(V))}", okv, file=F, func=q, construct="score var", msg=f"variance sub-term is {sorted(defs(V))}")
+    ms = defs(M)
+    okms = any("np.sum(np.square(list(self._flatten_dict_diagonal(self.process_noise" in m for m in ms) \
+        and any("self._flatten_dict_diagonal(" in m and m.startswith(f"{M}+") for m in ms)
+    ctx.oblige("SCORE", where, "size term = sum of squared noise diagonals (process noise, then every sensor's noise)", okms, file=F, func=q,
+               construct="score size term", msg=f"size sub-term is {sorted(ms)}")
